@@ -8,6 +8,7 @@ import (
 	"errors"
 	"fmt"
 	"io"
+	"reflect"
 	"sort"
 
 	"github.com/foxboron/go-uefi/internal/vsym"
@@ -49,6 +50,17 @@ func deferOrderResult() (s string) {
 
 // VST_Semantics: concrete Go semantics the interpreter must get right.
 func VST_Semantics() {
+	// nil and empty slices are different values
+	emptyB, emptyS := []uint8{}, []string{}
+	var nilB []uint8
+	var nilS []string
+	madeB := make([]byte, 0)
+	vsym.Assert(emptyB != nil && madeB != nil && emptyS != nil, "empty slices are not nil")
+	vsym.Assert(nilB == nil && nilS == nil, "nil slices are nil")
+	vsym.Assert(!reflect.DeepEqual(emptyB, nilB), "DeepEqual tells an empty byte slice from a nil one")
+	vsym.Assert(!reflect.DeepEqual(emptyS, nilS), "DeepEqual tells an empty slice from a nil one")
+	vsym.Assert(reflect.DeepEqual(emptyB, madeB), "DeepEqual of two empty byte slices")
+	vsym.Assert(append(nilB, emptyB...) == nil, "appending nothing to nil stays nil")
 	// wrap-around and conversions
 	var u8 uint8 = 250
 	u8 += 10
